@@ -438,7 +438,7 @@ FairSpec == Spec /\ WF_vars(Internal) /\ WF_vars(Tick) /\ WF_vars(E_Release)
 ---------------------------------------------------------------------------
 (* Requirements: the AdvReq monitor never flags (C04, C06-C10), plus       *)
 (* model-level invariants about the goroutine structure.                   *)
-Req == rq.bad = ""
+Req == rq.bad = {}
 
 Ended == parent = "canceled" \/ egerr # NONE \/ egc \/ sch.err # NONE
 C08_Prompt      == (Quiescent /\ parent = "canceled" /\ held = {}) => main = "ret"
